@@ -417,6 +417,9 @@ fn format_errors(rng: &mut Rng) -> Vec<String> {
     let (l1, l2) = (WengertList::new(), WengertList::new());
     let records = vec![Record::variable(1.5, &l1), Record::variable(2.5, &l2)];
     let hist_err = RecordTensor::from_iter([("x", 2)], records.clone()).err().unwrap();
+    if let easy_ml::differentiation::iterators::InvalidRecordIteratorError::InconsistentHistory(h) = &hist_err {
+        out.extend(all4!(h));
+    }
     out.extend(all4!(hist_err));
     let count_err = RecordMatrix::from_iter((2, 2), records[..1].to_vec()).err().unwrap();
     out.extend(all4!(count_err));
